@@ -10,6 +10,7 @@ open C03LeafModel
 open C04XrefModel
 open C03SencPassModel
 open C03PfxModel
+open C03MetaModel
 
 (* ---- H lines: encode histories through the two encoder models (coq/c03/C03EncHistModel.v over the C02 aggregate states); the token
    parsers and digests mirror ocaml/c02_driver.ml *)
@@ -472,12 +473,27 @@ let () =
             Printf.sprintf "stpp:%d:%s:%s:%s:[%s]" (int_of_n a.sp_dri) (hd a.sp_ns) (hd a.sp_sl) (hd a.sp_am) (S.concat "," (L.map dump kids))
           | PAse (a, kids) -> Printf.sprintf "ase:%d:%d:%d:%d:[%s]" (int_of_n a.as_dri) (int_of_n a.as_cc) (int_of_n a.as_ss) (int_of_n a.as_rate)
                                 (S.concat "," (L.map dump kids)) in
-        let m1 = match pfxbox_r bs with
-          | Ok (v, n) -> Printf.sprintf "ok:%s:S%s:%d" (pfx_fields v) (dec_of_n (pfxval_size v)) (int_of_n n)
-          | r -> cls_of r in
-        let m2 = match pfxbox_sr bs with
-          | Ok ((v, p), e) -> Printf.sprintf "ok:%s:S%s:%d:%s" (pfx_fields v) (dec_of_n (pfxval_size v)) (int_of_z p) (b01 e)
-          | r -> cls_of r in
+        let is_meta = L.length bs >= 8 && name_hex (L.filteri (fun i _ -> i >= 4 && i < 8) bs) = "6d657461" in
+        let meta_fields (v : metav) : string =
+          Printf.sprintf "meta:%s:%d:%s:[%s]" (b01 v.mt_qt) (int_of_n v.mt_version) (hexn v.mt_flags) (S.concat "," (L.map dump v.mt_kids)) in
+        let m1 =
+          if is_meta then
+            (match metabox_r bs with
+             | Ok (v, n) -> Printf.sprintf "ok:%s:S%s:%d" (meta_fields v) (dec_of_n (meta_size v)) (int_of_n n)
+             | r -> cls_of r)
+          else
+            (match pfxbox_r bs with
+             | Ok (v, n) -> Printf.sprintf "ok:%s:S%s:%d" (pfx_fields v) (dec_of_n (pfxval_size v)) (int_of_n n)
+             | r -> cls_of r) in
+        let m2 =
+          if is_meta then
+            (match metabox_sr bs with
+             | Ok ((v, p), e) -> Printf.sprintf "ok:%s:S%s:%d:%s" (meta_fields v) (dec_of_n (meta_size v)) (int_of_z p) (b01 e)
+             | r -> cls_of r)
+          else
+            (match pfxbox_sr bs with
+             | Ok ((v, p), e) -> Printf.sprintf "ok:%s:S%s:%d:%s" (pfx_fields v) (dec_of_n (pfxval_size v)) (int_of_z p) (b01 e)
+             | r -> cls_of r) in
         if m1 = o1 && m2 = o2 then Printf.printf "OK %s\n" id
         else Printf.printf "MISMATCH %s pfx model_r=%s model_sr=%s\n" id m1 m2
       | ["M"; id; "pfx"; fields; _; kids; enc] ->
